@@ -1,6 +1,7 @@
 package saml
 
 import (
+	"bytes"
 	"crypto/rand"
 	"io"
 	"time"
@@ -29,6 +30,35 @@ var RandReader = rand.Reader
 // the canonical attribute mode leaves ">" raw, and encoding/xml rejects a raw
 // "]]>" inside an attribute value.
 var xmlWriteSettings = etree.WriteSettings{CanonicalText: true}
+
+// crEscaper writes a raw carriage return as a character reference. With
+// xmlWriteSettings the only raw carriage returns etree still writes are those
+// inside attribute values (and comments), where a parser would otherwise turn
+// them into "\n" as well.
+type crEscaper struct{ w io.Writer }
+
+func (c crEscaper) Write(p []byte) (int, error) {
+	if _, err := c.w.Write(bytes.ReplaceAll(p, []byte{'\r'}, []byte("&#xD;"))); err != nil {
+		return 0, err
+	}
+	return len(p), nil
+}
+
+// writeXML serializes doc with the package's write settings.
+func writeXML(doc *etree.Document, w io.Writer) error {
+	doc.WriteSettings = xmlWriteSettings
+	_, err := doc.WriteTo(crEscaper{w})
+	return err
+}
+
+// xmlToBytes serializes doc with the package's write settings.
+func xmlToBytes(doc *etree.Document) ([]byte, error) {
+	var buf bytes.Buffer
+	if err := writeXML(doc, &buf); err != nil {
+		return nil, err
+	}
+	return buf.Bytes(), nil
+}
 
 //nolint:unparam // This always receives 20, but we want the option to do more or less if needed.
 func randomBytes(n int) []byte {
